@@ -521,7 +521,7 @@ func (ex *Exec) callFn(fr *Frame, st *State, fn *ssa.Function, args []Val, x ssa
 		}
 		return []callRes{{st: st, ret: r}}
 	}
-	sub := &Frame{fn: fn, regs: map[ssa.Value]Val{}, visits: map[*ssa.BasicBlock]int{}, widened: map[*ssa.BasicBlock]bool{}, depth: fr.depth + 1, stack: append(append([]*ssa.Function{}, fr.stack...), fn)}
+	sub := &Frame{fn: fn, regs: map[ssa.Value]Val{}, visits: map[*ssa.BasicBlock]int{}, widened: map[*ssa.BasicBlock]bool{}, phiHist: map[*ssa.Phi]Val{}, kept: map[*ssa.Phi]keptInv{}, depth: fr.depth + 1, stack: append(append([]*ssa.Function{}, fr.stack...), fn)}
 	for i, p := range fn.Params {
 		if i < len(args) {
 			sub.regs[p] = args[i]
@@ -732,3 +732,47 @@ func (ex *Exec) copyOp(st *State, args []Val, x ssa.CallInstruction) Val {
 }
 
 var _ = sort.Ints
+
+var sentinelCache = map[*ssa.Global]int{}
+
+// sentinelErr: package-level error variable stored exactly once, in the package initialiser,
+// from errors.New / fmt.Errorf (hence never nil and never reassigned).
+func (ex *Exec) sentinelErr(g *ssa.Global) bool {
+	if v, ok := sentinelCache[g]; ok {
+		return v == 1
+	}
+	sentinelCache[g] = 0
+	if !isErrorType(g.Type().(*types.Pointer).Elem()) {
+		return false
+	}
+	n := 0
+	for fn := range ex.P.All {
+		for _, b := range fn.Blocks {
+			for _, in := range b.Instrs {
+				st, ok := in.(*ssa.Store)
+				if !ok || st.Addr != g {
+					continue
+				}
+				n++
+				if fn.Name() != "init" {
+					return false
+				}
+				call, ok := st.Val.(*ssa.Call)
+				if !ok || !nonNilCtors[calleeQual(call)] {
+					// may be a copy of another sentinel
+					if l, ok := st.Val.(*ssa.UnOp); ok {
+						if g2, ok := l.X.(*ssa.Global); ok && g2 != g && ex.sentinelErr(g2) {
+							continue
+						}
+					}
+					return false
+				}
+			}
+		}
+	}
+	if n == 1 {
+		sentinelCache[g] = 1
+		return true
+	}
+	return false
+}
